@@ -10,12 +10,64 @@ import time
 import multiprocessing as mp
 
 
+def _linearize(assertions, ctx):
+    """Sound abstraction: every product of two non-numeral terms, every division by a non-numeral and
+    every power becomes an application of an uninterpreted function.  Real multiplication is one
+    interpretation of those functions, so `unsat` of the abstraction implies `unsat` of the original;
+    `sat` of the abstraction means nothing.  Obligations that only need linear reasoning are thereby
+    kept away from the non-linear engine."""
+    import z3
+    R, I = z3.RealSort(ctx), z3.IntSort(ctx)
+    fr = z3.Function("nlmul_r", R, R, R)
+    fi = z3.Function("nlmul_i", I, I, I)
+    fd = z3.Function("nldiv_r", R, R, R)
+    cache = {}
+
+    def numeral(e):
+        return z3.is_rational_value(e) or z3.is_int_value(e)
+
+    def walk(e):
+        k = e.get_id()
+        if k in cache:
+            return cache[k]
+        if z3.is_quantifier(e) or not z3.is_app(e) or e.num_args() == 0:
+            cache[k] = e
+            return e
+        args = [walk(c) for c in e.children()]
+        dk = e.decl().kind()
+        r = None
+        if dk == z3.Z3_OP_MUL:
+            nums = [a for a in args if numeral(a)]
+            rest = sorted([a for a in args if not numeral(a)], key=lambda a: a.get_id())
+            if len(rest) >= 2:
+                f = fr if rest[0].sort() == R else fi
+                acc = rest[0]
+                for a in rest[1:]:
+                    acc = f(acc, a)
+                for n in nums:
+                    acc = n * acc
+                r = acc
+        elif dk == z3.Z3_OP_DIV and not numeral(args[1]):
+            r = fd(args[0], args[1])
+        elif dk == z3.Z3_OP_POWER:
+            r = z3.Function("nlpow_r", R, R, R)(args[0], args[1]) if args[0].sort() == R else None
+        if r is None:
+            try:
+                r = e.decl()(*args)
+            except Exception:
+                r = e
+        cache[k] = r
+        return r
+    return [walk(a) for a in assertions]
+
+
 def _solve_one(task):
     name, smt2, timeout_s, want_model = task
     import z3
     t0 = time.time()
     out = dict(name=name, verdict="unknown", backend=None, time=0.0, model=None, detail="")
-    stages = [("z3", {}, min(timeout_s, 4.0)), ("z3-arith2", {"smt.arith.solver": 2}, min(timeout_s, 6.0))]
+    stages = [("z3-linearized", {"linearize": True}, min(timeout_s, 3.0)),
+              ("z3", {}, min(timeout_s, 4.0)), ("z3-arith2", {"smt.arith.solver": 2}, min(timeout_s, 6.0))]
     if timeout_s > 4.0:
         stages.append(("z3", {}, timeout_s))
     for label, opts, tmo in stages:
@@ -23,10 +75,21 @@ def _solve_one(task):
             ctx = z3.Context()
             s = z3.Solver(ctx=ctx)
             s.set("timeout", int(tmo * 1000))
+            lin = opts.pop("linearize", False) if isinstance(opts, dict) else False
             for k, v in opts.items():
                 s.set(k, v)
             s.from_string(smt2)
+            if lin:
+                if "(* " not in smt2 and "(/ " not in smt2:
+                    continue
+                s2 = z3.Solver(ctx=ctx)
+                s2.set("timeout", int(tmo * 1000))
+                for a in _linearize(s.assertions(), ctx):
+                    s2.add(a)
+                s = s2
             r = s.check()
+            if lin and r != z3.unsat:
+                continue
             out["backend"] = "%s-%s" % (label, z3.get_version_string())
             if r == z3.unsat:
                 out["verdict"] = "unsat"
@@ -118,7 +181,8 @@ def _scalar(e):
 
 
 def solve_all(obligations, timeout_s=20, procs=None, want_model=True):
-    tasks = [(o["name"], o["smt2"], timeout_s, want_model) for o in obligations]
+    tasks = [(o["name"], o["smt2"], min(timeout_s, 5) if o.get("kind") == "cover" else timeout_s, want_model)
+             for o in obligations]
     if not tasks:
         return []
     procs = procs or min(16, os.cpu_count() or 4, len(tasks))
